@@ -35,6 +35,21 @@ Theorem C18_dict_comment_blank_ignored :
 Proof. exact dict_comment_blank_ignored. Qed.
 Print Assumptions C18_dict_comment_blank_ignored.
 
+(* a rendered assignment line  ws key ws = pad value pad ws  (ws: any Unicode white space; pad: any
+   mix of spaces and double quotes) contributes exactly (lower key, value): key casing, optional
+   quoting and surrounding white space are irrelevant *)
+Theorem C18_assignment_rendered :
+  forall w1 k w2 p3 v p4 w4,
+  forallb is_space w1 = true -> forallb is_space w2 = true -> forallb is_space w4 = true ->
+  forallb (memz [32; 34]) p3 = true -> forallb (memz [32; 34]) p4 = true ->
+  k <> [] -> ~ In 61 k -> head_not is_space k = true -> last_not is_space k = true ->
+  head_not (Z.eqb 35) k = true ->
+  v <> [] -> head_not (memz [32; 34]) v = true -> last_not (memz [32; 34]) v = true ->
+  last_not is_space v = true ->
+  assignment (w1 ++ k ++ w2 ++ 61 :: p3 ++ v ++ p4 ++ w4) = Some (lower k, v).
+Proof. exact assignment_rendered. Qed.
+Print Assumptions C18_assignment_rendered.
+
 (* ---- VMX.disks ---- *)
 
 (* device.lstrip(dev_class) strips a character SET; it is a prefix removal exactly when the
